@@ -163,20 +163,31 @@ def rule_pipe(ctx):
 def rule_transition(ctx):
     fx = ctx.facts
     ev = sym.Eval(fx, inline_depth=0)
-    t = fx.fn("transition_axioms::transition")
-    v = ev.function(t)
+    ta = fx.fn("StrongEquivalenceTask::transition_axioms")
+    v = ev.function(ta)
+    # the theory's formulas: one image under F per predicate; F is a named function, a closure, or a later-extracted helper
+    preds = F_ = None
+    if v[:2] == ("ctor", "Theory"):
+        fm = dict(v[2]).get("formulas")
+        if isinstance(fm, tuple) and fm[:2] == ("call", "Iterator::map") and len(fm[2]) == 2:
+            preds, F_ = fm[2]
+    if F_ is None:
+        raise AnalysisGap("transition_axioms: the formulas of the theory are not a map over the predicates")
+    cands = [k for k in fx.bodies if F_[0] == "fn" and (k == F_[1] or k.endswith("::" + F_[1])) and len(fx.bodies[k]) == 1]
+    if F_[0] == "fn" and len(cands) == 1:
+        t = fx.bodies[cands[0]][0]
+        tv = sym.Eval(fx, inline_depth=0).function(t, [("param", "p")])
+    elif F_[0] == "closure" and len(F_[1]) == 1:
+        t = ta
+        tv = sym.subst(F_[2], {F_[1][0]: ("param", "p")})
+    else:
+        raise AnalysisGap("transition_axioms: unknown mapping function %r" % (F_[:2],))
     p = ("call", "From::from[Predicate<-Predicate]", (("param", "p"),))
     hp = ("call", "Here::here", (("call", "Predicate::to_formula", (p,)),))
     tp = ("call", "There::there", (("call", "Predicate::to_formula", (p,)),))
     ref = ("call", "Formula::quantify", (("ctor", "Formula::BinaryFormula", (("connective", ("ctor", "BinaryConnective::Implication", ())), ("lhs", hp), ("rhs", tp))),
                                           ("ctor", "Quantifier::Forall", ()), ("call", "Formula::free_variables", (hp,))))
-    ctx.add("TPL", "transition", v == ref, ctx.site(t), "transition(p) = forall free(hp) (here(p(X..)) -> there(p(X..)))", construct=v)
-    ta = fx.fn("StrongEquivalenceTask::transition_axioms")
-    v = ev.function(ta)
-    preds = None
-    for x in sym.subterms(v):
-        if isinstance(x, tuple) and x[:2] == ("call", "Iterator::map") and x[2][1] == ("fn", "transition_axioms::transition"):
-            preds = x[2][0]
+    ctx.add("TPL", "transition", tv == ref, ctx.site(t), "transition(p) = forall free(hp) (here(p(X..)) -> there(p(X..)))", construct=tv)
     sources = set()
     if preds is not None:
         for x in sym.subterms(preds):
